@@ -96,7 +96,7 @@ fn random_tokens(t: &mut Tape) -> String {
 fn self_test(t: &Table) -> Result<usize, String> {
     let b = |n: &str| t.byte(n);
     let u16le = |v: u16| vec![(v & 0xff) as u8, (v >> 8) as u8];
-    let mk = |ins: Vec<u8>, consts: Vec<Object>| Bytecode { constants: consts, instructions: ins };
+    let mk = |ins: Vec<u8>, consts: Vec<Object>| Bytecode { constants: consts, instructions: ins, start: 0 };
     let cat = |parts: Vec<Vec<u8>>| parts.concat();
     let cases: Vec<(&str, Bytecode)> = vec![
         ("decode", mk(vec![250], vec![])),
